@@ -252,3 +252,113 @@ def path_change_or_creation_dispatch(w: World):
     for c in rn:
         check(c.args[0] is sync and c.args[1] == changed and c.args[2] == synced and c.args[3] == tp, "rename to the translated path of this entry")
         check(not sync.is_creation(changed) and not sync[changed].is_corrupt, "only for an entry that is neither a creation nor corrupt")
+
+
+@lemma(props=["C02", "C03", "C07"], configs="sides", raises=["Exception"])
+def download_changed_reads_the_entrys_own_object(w: World):
+    """L2.8: fetching the changed content never writes to a provider; the only provider call is at most one `download`
+    of the entry's own object on the changed side; True is returned only with a temp file recorded (downloaded to a
+    '.tmp' sibling first and renamed into place, or an existing temp re-used); a vanished object marks that side MISSING
+    and reports False"""
+    mgr = w.mgr
+    sync = w.entry("sync")
+    changed = w.changed
+    own = sync[changed].oid
+    assume(sync[changed].otype != DIRECTORY)       # call-site fact: folders are mirrored by mkdir, never downloaded
+    r = mgr.download_changed(changed, sync)
+    pcs = provider_calls()
+    check(len(provider_writes()) == 0, "no provider write")
+    check(len(pcs) <= 1, "at most one provider call")
+    for c in pcs:
+        check(c.side == changed and c.method == "download" and c.args[0] == own, "a download of the entry's own object on the changed side")
+    check(r is True or r is False, "reports success or failure")
+    if r is True:
+        check(sync[changed].temp_file is not None and len(sync[changed].temp_file) > 0, "success: the content is in the recorded temp file")
+        for c in pcs:
+            check(c.ok, "a failed download is never reported as success")
+
+
+@lemma(props=["C12", "C02"], configs="none", raises=["Exception"])
+def revivify_only_when_the_path_became_relevant(w: World):
+    """L12.5: an entry that was set aside as irrelevant (outside the synchronised roots) comes back to life only if the
+    provider, asked about the entry's own id, reports a path that the application's translation accepts; a live entry,
+    a conflicted one, a merely discarded one are left exactly as they are; reviving never writes to a provider and only
+    asks `info_oid` about the entry's own ids"""
+    mgr = w.mgr
+    sync = w.entry("sync")
+    ign0 = sync.ignored
+    irr0 = sync.is_irrelevant
+    oids = (sync[0].oid, sync[1].oid)
+    mgr.check_revivify(sync)
+    pcs = provider_calls()
+    check(len(provider_writes()) == 0, "no provider write")
+    for c in pcs:
+        check(c.method == "info_oid" and c.args[0] == oids[c.side], "only the entry's own ids are looked up")
+    if sync.ignored != ign0:
+        check(irr0 and sync.ignored == IgnoreReason.NONE, "only an irrelevant entry is revived")
+        revived = False
+        for c in pcs:
+            if c.ok and c.result is not None and truthy(c.result.path) and mgr.translate(1 - c.side, c.result.path) is not None:
+                revived = True
+        check(revived, "and only because a path reported by the provider translates to the other side")
+    if not irr0:
+        check(sync.ignored == ign0, "an entry that is not irrelevant keeps its status")
+
+
+@lemma(props=["C02", "C04"], configs="sides")
+def changed_side_missing_never_touches_the_survivor(w: World):
+    """L2.9: when the changed side turns out to be missing (not deleted by a user -- just gone), nothing is asked of any
+    provider: the surviving copy on the other side is never deleted; after being deferred more than four times the
+    survivor is marked unsynced and forced to sync back (so it is re-created, not lost)"""
+    mgr = w.mgr
+    sync = w.entry("sync")
+    changed = w.changed
+    synced = w.synced
+    survivor = sync[synced].exists == EXISTS
+    prio = sync.priority
+    s_oid, s_path, s_hash = sync[synced].oid, sync[synced].path, sync[synced].hash
+    r = mgr.handle_changed_is_missing(sync, changed, synced)
+    check(len(provider_calls()) == 0, "no provider call at all")
+    check(sync[synced].oid == s_oid and sync[synced].path == s_path and sync[synced].hash == s_hash and
+          (sync[synced].exists == EXISTS) == survivor, "the other side's object is left as it is")
+    if survivor and prio <= 4:
+        check(r == PUNT, "a surviving copy: wait (punt) first")
+    elif survivor:
+        check(r == FINISHED, "after enough deferrals the step finishes")
+        check(sync[synced].sync_path is None and sync[synced].sync_hash is None and sync[synced].force_sync is True,
+              "and the survivor is marked unsynced and forced to sync back")
+        check(sync[changed].oid is None and sync[changed].path is None, "the missing side is forgotten")
+    else:
+        check(r == FINISHED, "nothing on either side: finished")
+
+
+@lemma(props=["C02", "C03"], configs="sides", raises=["Exception"],
+       stubs={"cloudsync.sync.manager:SyncManager.download_changed": {"results": ["True", "False"], "havoc": False},
+              "cloudsync.sync.manager:SyncManager.upload_synced": {"results": ["True", "False"], "havoc": False},
+              "cloudsync.sync.manager:SyncManager.handle_corrupt": {"results": ["FINISHED"], "havoc": False}})
+def hash_diff_downloads_then_uploads(w: World):
+    """L3.8: a content change with a live peer: the content is fetched first and uploaded second, each at most once, for
+    this entry and this direction; FINISHED only if both reported success, otherwise the entry is punted; the function
+    itself asks nothing of the providers"""
+    mgr = w.mgr
+    sync = w.entry("sync")
+    changed = w.changed
+    synced = w.synced
+    assume(sync[changed].path is not None)
+    assume(not (sync[synced].exists in (TRASHED, MISSING) or sync[synced].oid is None))
+    r = mgr.handle_hash_diff(sync, changed, synced)
+    dl = calls("download_changed")
+    up = calls("upload_synced")
+    check(len(provider_calls()) == 0, "no direct provider call")
+    check(len(dl) == 1 and dl[0].args[0] == changed and dl[0].args[1] is sync, "the changed side's content is fetched once")
+    check(len(up) <= 1, "at most one upload")
+    for c in up:
+        check(c.args[0] == changed and c.args[1] is sync and dl[0].result is True, "uploaded only after a successful fetch, same entry and direction")
+    seen_upload = False
+    for n in effect_names():
+        if n == "upload_synced":
+            seen_upload = True
+        if n == "download_changed":
+            check(not seen_upload, "fetch before upload")
+    if r == FINISHED and len(calls("handle_corrupt")) == 0:
+        check(len(up) == 1 and up[0].result is True, "finished only after a successful upload")
